@@ -1,0 +1,29 @@
+//go:build verif
+
+package eq
+
+// Contracts for eq.Seq / eq.Slice (C09), checked by /verif/govc.
+// Eqv(a, b) holds exactly when the lengths agree and the elements are pairwise equal (onlyIfPairwise +
+// ifPairwise); symmetry and transitivity follow from that characterisation and the component laws and
+// are not stated as separate obligations (three inlined loops made the solver time out).
+
+//@ import "github.com/csgura/fp/internal/veriflaws"
+//
+//@ func Seq(eq) result
+//@   loop 0 invariant 0 <= i && i < len(a) && len(a) == len(b)
+//@   loop 0 invariant forall j int :: 0 <= j && j < i ==> eq.Eqv(a[j], b[j])
+//@   loop 0 decreases len(a) - i
+//
+//@ lemma seqEqLaws[T any](e fp.Eq[T], a, b, c fp.Seq[T], k int)
+//@   prop C09
+//@   requires veriflaws.EqLaws(e)
+//@   ensures Seq(e).Eqv(a, a)
+//@   tag refl
+//@   ensures Seq(e).Eqv(a, b) ==> len(a) == len(b) && (0 <= k && k < len(a) ==> e.Eqv(a[k], b[k]))
+//@   tag onlyIfPairwise
+//
+//@ lemma seqEqPairwise[T any](e fp.Eq[T], a, b fp.Seq[T])
+//@   prop C09
+//@   requires len(a) == len(b) && (forall j int :: 0 <= j && j < len(a) ==> e.Eqv(a[j], b[j]))
+//@   ensures Seq(e).Eqv(a, b)
+//@   tag ifPairwise
